@@ -396,6 +396,11 @@ func init() {
 				"probe:chain-2000-survived", "probe:not-chain-survived", "probe:after-chain", "expensive_valid_inputs"}
 		},
 		ChunkTimeout: 0,
+		Heavy: func(tier string, idx int) bool {
+			p := c10PlanFor(tier)
+			k := idx - p.nCorpus - p.nHostile - p.nNest
+			return k >= 8 && k < p.nLong
+		},
 		Post: func(a *mon.Agg) {
 			// results of the native fuzzer stage run by ./check before the
 			// seeded workload (thorough tier)
